@@ -112,7 +112,7 @@ def run(prog, tier, extra=None):
     if rp_sites:
         res.instance(R3)
         tch = Chaser(tv)
-        RP_EXEMPT = {"Fee", "SPV", "BlockStake", "ATR", "Issuance"}
+        RP_EXEMPT = {"Fee", "SPV", "ATR", "Issuance"}     # staking transactions can pay fees and carry hops like any user transaction
         exempt_rp, rp_priv = gate.enum_compare_edges(prog, tv, tch, "transaction::TransactionType", "transaction_type", RP_EXEMPT)
         found_rp = Explorer(tv).explore(0, deleted_edges=exempt_rp, blocked=rp_sites, accept=gate.make_accept(tv, return_true=True))
         if found_rp:
